@@ -75,6 +75,25 @@ func docVals(ds []orda.Document) []interface{} {
 // Apply performs the call on a public datatype (or its in-transaction view) and returns
 // the API's return value in plain form.
 func Apply(dt interface{}, o Op) (ret interface{}, err error) {
+	// Pointers to primitives are handed over as pointers to private copies which are
+	// overwritten as soon as the call has returned: a datatype that keeps the caller's pointer
+	// instead of the value it pointed to at the time of the call then reads, exports and
+	// encodes something else than what it applied (o.Val / o.Vals stay as generated for the
+	// oracles).
+	var pokes []func()
+	o.Val = aliasArg(o.Val, &pokes)
+	if len(o.Vals) > 0 {
+		vs := make([]interface{}, len(o.Vals))
+		for i, v := range o.Vals {
+			vs[i] = aliasArg(v, &pokes)
+		}
+		o.Vals = vs
+	}
+	defer func() {
+		for _, f := range pokes {
+			f()
+		}
+	}()
 	switch t := dt.(type) {
 	case orda.CounterInTx:
 		if o.Kind == "inc" && o.N == 1 {
@@ -419,6 +438,100 @@ func (g *Gen) Op(rep *Rep) Op {
 	panic("bad type")
 }
 
+// Burst returns one operation per replica, all aimed at the same place - the same map key, the
+// same list index, the same key / index of one container of a document - for replicas that
+// hold the same state (call it at a quiescent point: all clocks are equal then, so the
+// operations of the burst are ordered by the client-id tie-break alone).
+func (g *Gen) Burst(reps []*Rep) []Op {
+	r := g.R
+	first := reps[0]
+	out := make([]Op, 0, len(reps))
+	pickKey := func(m map[string]interface{}) string {
+		if keys := SortedKeys(m); len(keys) > 0 && r.Intn(4) > 0 {
+			return keys[r.Intn(len(keys))]
+		}
+		return g.key()
+	}
+	seq := func(n int, path []interface{}, val func() interface{}) {
+		if n == 0 {
+			for range reps {
+				out = append(out, Op{Kind: "ins", Path: path, Pos: 0, Vals: []interface{}{val()}})
+			}
+			return
+		}
+		p := r.Intn(n)
+		for range reps {
+			switch r.Intn(4) {
+			case 0:
+				out = append(out, Op{Kind: "ins", Path: path, Pos: p + r.Intn(2), Vals: []interface{}{val()}})
+			case 1:
+				out = append(out, Op{Kind: "del", Path: path, Pos: p, N: 1})
+			default:
+				out = append(out, Op{Kind: "upd", Path: path, Pos: p, Vals: []interface{}{val()}})
+			}
+		}
+	}
+	switch first.Typ {
+	case "map":
+		m, _ := Norm(first.DT.(orda.Map).ToJSON()).(map[string]interface{})
+		key := pickKey(m)
+		for range reps {
+			if r.Intn(2) == 0 {
+				out = append(out, Op{Kind: "rm", Key: key})
+			} else {
+				out = append(out, Op{Kind: "put", Key: key, Val: g.Prim()})
+			}
+		}
+	case "list":
+		seq(first.DT.(orda.List).Size(), nil, g.Prim)
+	case "doc":
+		var path []interface{}
+		cur := first.DT.(orda.Document)
+		for depth := 0; depth < 2 && r.Intn(2) == 0; depth++ {
+			var nx orda.Document
+			var step interface{}
+			switch vv := cur.GetValue().(type) {
+			case map[string]interface{}:
+				if keys := SortedKeys(vv); len(keys) > 0 {
+					k := keys[r.Intn(len(keys))]
+					nx, _ = cur.GetFromObject(k)
+					step = k
+				}
+			case []interface{}:
+				if len(vv) > 0 {
+					i := r.Intn(len(vv))
+					nx, _ = cur.GetFromArray(i)
+					step = i
+				}
+			}
+			if nx == nil || nx.GetTypeOfJSON() == orda.TypeJSONElement {
+				break
+			}
+			cur = nx
+			path = append(path, step)
+		}
+		if cur.GetTypeOfJSON() == orda.TypeJSONObject {
+			m, _ := cur.GetValue().(map[string]interface{})
+			key := pickKey(m)
+			for range reps {
+				if r.Intn(2) == 0 {
+					out = append(out, Op{Kind: "rm", Path: path, Key: key})
+				} else {
+					out = append(out, Op{Kind: "put", Path: path, Key: key, Val: g.Val(0)})
+				}
+			}
+		} else {
+			arr, _ := cur.GetValue().([]interface{})
+			seq(len(arr), path, func() interface{} { return g.Val(1) })
+		}
+	default:
+		for _, rep := range reps {
+			out = append(out, g.Op(rep))
+		}
+	}
+	return out
+}
+
 // SeqOp: a valid insert / delete / update on a sequence of current length n at path.
 func (g *Gen) SeqOp(n int, path []interface{}) Op {
 	d := 0
@@ -534,6 +647,176 @@ func (g *Gen) Str() string {
 	return hostileStrings[g.R.Intn(len(hostileStrings))] + g.Tag()
 }
 
+// aliasArg returns v itself, or for a non-nil pointer to a number / string / bool a pointer to a
+// fresh copy plus (in pokes) the function that overwrites that copy after the call.
+func aliasArg(v interface{}, pokes *[]func()) interface{} {
+	switch p := v.(type) {
+	case *int:
+		if p != nil {
+			c := *p
+			*pokes = append(*pokes, func() { c = ^c })
+			return &c
+		}
+	case *int8:
+		if p != nil {
+			c := *p
+			*pokes = append(*pokes, func() { c = ^c })
+			return &c
+		}
+	case *int16:
+		if p != nil {
+			c := *p
+			*pokes = append(*pokes, func() { c = ^c })
+			return &c
+		}
+	case *int32:
+		if p != nil {
+			c := *p
+			*pokes = append(*pokes, func() { c = ^c })
+			return &c
+		}
+	case *int64:
+		if p != nil {
+			c := *p
+			*pokes = append(*pokes, func() { c = ^c })
+			return &c
+		}
+	case *uint:
+		if p != nil {
+			c := *p
+			*pokes = append(*pokes, func() { c = ^c })
+			return &c
+		}
+	case *uint8:
+		if p != nil {
+			c := *p
+			*pokes = append(*pokes, func() { c = ^c })
+			return &c
+		}
+	case *uint16:
+		if p != nil {
+			c := *p
+			*pokes = append(*pokes, func() { c = ^c })
+			return &c
+		}
+	case *uint32:
+		if p != nil {
+			c := *p
+			*pokes = append(*pokes, func() { c = ^c })
+			return &c
+		}
+	case *uint64:
+		if p != nil {
+			c := *p
+			*pokes = append(*pokes, func() { c = ^c })
+			return &c
+		}
+	case *float32:
+		if p != nil {
+			c := *p
+			*pokes = append(*pokes, func() {
+				if c == 12345.5 {
+					c = 1
+				} else {
+					c = 12345.5
+				}
+			})
+			return &c
+		}
+	case *float64:
+		if p != nil {
+			c := *p
+			*pokes = append(*pokes, func() {
+				if c == 12345.5 {
+					c = 1
+				} else {
+					c = 12345.5
+				}
+			})
+			return &c
+		}
+	case *string:
+		if p != nil {
+			c := *p
+			*pokes = append(*pokes, func() { c = "poked:" + c })
+			return &c
+		}
+	case *bool:
+		if p != nil {
+			c := *p
+			*pokes = append(*pokes, func() { c = !c })
+			return &c
+		}
+	}
+	return v
+}
+
+// numOfKind returns n as a Go number of the k-th kind (every width), as a value or a pointer.
+func numOfKind(k int, n int64, ptr bool) interface{} {
+	switch k % 10 {
+	case 0:
+		v := int(n)
+		if ptr {
+			return &v
+		}
+		return v
+	case 1:
+		v := int8(n)
+		if ptr {
+			return &v
+		}
+		return v
+	case 2:
+		v := int16(n)
+		if ptr {
+			return &v
+		}
+		return v
+	case 3:
+		v := int32(n)
+		if ptr {
+			return &v
+		}
+		return v
+	case 4:
+		v := n
+		if ptr {
+			return &v
+		}
+		return v
+	case 5:
+		v := uint(n)
+		if ptr {
+			return &v
+		}
+		return v
+	case 6:
+		v := uint8(n)
+		if ptr {
+			return &v
+		}
+		return v
+	case 7:
+		v := uint16(n)
+		if ptr {
+			return &v
+		}
+		return v
+	case 8:
+		v := uint32(n)
+		if ptr {
+			return &v
+		}
+		return v
+	default:
+		v := uint64(n)
+		if ptr {
+			return &v
+		}
+		return v
+	}
+}
+
 // GoVal returns a Go-native value (typed numerics, pointers, structs, typed containers).
 // withNilFields allows struct fields holding nil slices / maps / pointers.
 func (g *Gen) GoVal(withNilFields bool) interface{} {
@@ -541,22 +824,8 @@ func (g *Gen) GoVal(withNilFields bool) interface{} {
 	i64s := []int64{0, 1, -1, 127, -128, 255, 32767, 65535, 1 << 31, -(1 << 31), 1<<53 - 1, 1 << 53, 1<<53 + 1, -(1 << 53), 1<<62 + 12345, -1 << 63, 1<<63 - 1}
 	n := i64s[r.Intn(len(i64s))]
 	switch r.Intn(24) {
-	case 0:
-		return int(n)
-	case 1:
-		return int8(n)
-	case 2:
-		return int16(n)
-	case 3:
-		return int32(n)
-	case 4:
-		return n
-	case 5:
-		return uint8(n)
-	case 6:
-		return uint32(n)
-	case 7:
-		return uint64(n)
+	case 0, 1, 2, 3, 4, 5, 6, 7:
+		return numOfKind(r.Intn(10), n, false) // every integer width, signed and unsigned
 	case 8:
 		fs := []float32{0.1, 1.5, 3.4e38, -2.25, 1e-7, 16777217}
 		if g.ExactF32 {
@@ -567,8 +836,7 @@ func (g *Gen) GoVal(withNilFields bool) interface{} {
 		fs := []float64{0.1, 1e21, 1e-7, -0.0, 123456789.123456789, 5e-324, 1.7976931348623157e308}
 		return fs[r.Intn(len(fs))]
 	case 10:
-		v := int(n)
-		return &v
+		return numOfKind(r.Intn(10), n, true) // pointer to every integer width
 	case 11:
 		v := g.Str()
 		return &v
@@ -576,6 +844,10 @@ func (g *Gen) GoVal(withNilFields bool) interface{} {
 		v := r.Intn(2) == 0
 		return &v
 	case 13:
+		if r.Intn(2) == 0 {
+			v := []float64{0.1, -2.25, 1e21, 5e-324}[r.Intn(4)]
+			return &v
+		}
 		v := float32(0.1)
 		if g.ExactF32 {
 			v = 0.25
